@@ -334,6 +334,14 @@ def handler : Handler := fun op j =>
       | _, true => 1.0 / T.toFloat
     let basis (q : Nat) : V Cx := fun p => if p = q then 1 else 0
     some (ok (jCMat (fun p q => cscale s * dftAxes dims ws (basis q) p) N N))
+  | "x3split" => do
+    -- 1-d factor of the 3-D X-ray footprint for a list of left edges: first bin, coded and documented share
+    let les ← fFloats? j "le"; let w ← fFloat? j "w"
+    let fl : Float → Int := fun p => (Float.floor p).toInt64.toInt
+    let cl : Float → Int := fun p => (Float.ceil p).toInt64.toInt
+    some (ok (jObj [("ind", jIs (les.map fl)),
+      ("coded", jFs (les.map (x3ToNextCoded cl Float.ofInt w))),
+      ("doc", jFs (les.map (x3ToNextDoc fl Float.ofInt 1.0 w)))]))
   | "dftinit" => do
     let shape ← fNats? j "shape"
     let axes := fInts? j "axes"
